@@ -110,7 +110,7 @@ theorem clQuiet_provisionResources (c : Cluster) (parts minPer : Nat)
     · injection h with h; injection h with h1 _; subst h1; exact ClQuiet.refl c
 
 theorem runAlgorithm_quiet (s : Sys) (orc : Oracle) (plan : Plan) (schedule : List (Tid × Mid))
-    (pool : List Tid) (out : AlgOut) (hpre : orc.preOk)
+    (pool : List Tid) (out : AlgOut) (hpre : s.alg = .oracle → orc.preOk)
     (h : s.runAlgorithm orc plan schedule pool = .ok out) : ClQuiet s.cl out.cl := by
   unfold runAlgorithm at h
   split at h
@@ -142,9 +142,10 @@ theorem runAlgorithm_quiet (s : Sys) (orc : Oracle) (plan : Plan) (schedule : Li
     split at h
     · exact absurd h (by simp)
     · injection h with h; subst h; exact ClQuiet.refl _
-  · injection h with h
+  · rename_i halg
+    injection h with h
     subst h
-    exact clQuiet_batchOps orc.pre hpre s.cl
+    exact clQuiet_batchOps orc.pre (hpre halg) s.cl
 
 /-! ### `allocBegin` / `allocEnd` / `provisionIngest` on the ghost fields -/
 
